@@ -4,7 +4,7 @@ Correspondence + falsifier: tools/frontend_engine.py."""
 import frontend_engine as fe
 import harness
 
-GEN_UNITS = ['Encoders', 'Criteria']
+GEN_UNITS = ['Encoders', 'Criteria', 'Guards']
 EXES = []
 ASSUMPTIONS = ['expressions of the documented integer subset (+ - * // % << >> & | ^ ~ **, parentheses, decimal / hex / binary '
                'literals, names); shift counts and exponents are small non-negative literals; printable ASCII',
